@@ -14,6 +14,8 @@ NAMING = {
     "plain": ["Alpha", "Beta", "Gamma", "Delta", "Epsi", "Zeta"],
     "prefix": ["User", "UserGroup", "UserGroupRole", "UserG", "Us", "UserGroupRoleX"],
     "propcase": ["Node", "Edge", "Graph", "Leaf", "Tree", "Root"],  # property names equal the schema name up to case
+    # the cycle tracker keys decisions on substrings of schema names ('Item', 'Property', 'Children'): use such names too
+    "itemish": ["Order", "LineItem", "Children", "ChildrenItem", "OrderProperty", "ItemList"],
 }
 
 
